@@ -48,5 +48,7 @@ Lemma extracted_structure :
   Extracted.dispatcher_arms = 10 /\
   (* the client side: every request method waits, unconditionally, on a fresh channel of its own *)
   Extracted.clients_rendezvous_plain = true /\
-  Extracted.api_request_methods = 9.
+  Extracted.api_request_methods = 9 /\
+  (* the consumer of the dispatcher's blocking sends to the hooks goroutine waits on both channels everywhere *)
+  Extracted.hooks_consumer_always_drains = true.
 Proof. repeat split; reflexivity. Qed.
